@@ -491,3 +491,49 @@ def h_register_first(P, E, H):
                       body=b, line=b.call_at(bad[0]).line if b.call_at(bad[0]) else None,
                       path=E.describe_path(b, path or []))
     return r
+
+
+# --------------------------------------------------------------------------- T-rxerror (C04 type-level identity)
+
+def rxerror_immutable(P, E, H=None):
+    """RxError is Clone by Arc sharing; its payload cannot be mutated or swapped through the API:
+    no interior-mutable leaf (lock/cell/atomic) in RxError's field tree, the `inner` field is an
+    Arc, Clone is derived (Arc clone), and no method of RxError takes `&mut self` or returns `&mut`."""
+    r = RuleResult("T-rxerror", "RxError shares one immutable payload between clones (no interior mutability, no &mut API)")
+    adt = P.adts.get("rx_error::RxError")
+    inner = P.adts.get("rx_error::RxErrorInner")
+    if not adt or not inner:
+        r.error("anchor missing: RxError / RxErrorInner")
+        return r
+    for a in (adt, inner):
+        for v in a["variants"]:
+            for f in v["fields"]:
+                locks = [l for l in f["leaves"] if l["end"] == "lock"]
+                r.instance((norm(a["path"]), f["name"]), True, "type %s; interior-mutable leaves: %d" % (f["ty"]["s"], len(locks)))
+                if locks:
+                    r.violate((norm(a["path"]), f["name"], "interior mutability in the error payload"),
+                              "RxError.%s contains %s: a forwarded clone no longer denotes a fixed payload" % (f["name"], locks[0]["ty"]))
+    fields = {f["name"]: f for v in adt["variants"] for f in v["fields"]}
+    if "inner" not in fields or not fields["inner"]["ty"]["s"].startswith("std::sync::Arc<"):
+        r.violate(("rx_error::RxError", "inner", "payload not shared by Arc"),
+                  "RxError.inner is %s: clones would copy (or lose) the payload instead of sharing it"
+                  % (fields.get("inner", {}).get("ty", {}).get("s")))
+    n = 0
+    for b in P.bodies.values():
+        st = norm(ty_adt(b.impl_self or {}) or "")
+        if b.kind == "assoc" and st == "rx_error::RxError":
+            n += 1
+            sig = [b.locals[i]["ty"] for i in range(0, b.argc + 1)]
+            r.instance((b.nid, "signature"), True, " , ".join(t["s"] for t in sig))
+            for i, t in enumerate(sig):
+                if t.get("k") == "ref" and t.get("mut") and b.impl_trait not in ("std::fmt::Debug", "std::fmt::Display"):
+                    r.violate((b.nid, "&mut in RxError API"), "method %s %s `&mut`: the payload can be replaced behind other clones"
+                              % (b.nid, "returns" if i == 0 else "takes"), body=b)
+            if b.impl_trait == "std::clone::Clone" and b.name == "clone":
+                # derived clone = clones the Arc field only
+                cl = [c for c in b.calls if c.path == "std::clone::Clone::clone"]
+                if len(cl) != 1 or "Arc" not in (cl[0].targs[0].get("s", "") if cl[0].targs else ""):
+                    r.violate((b.nid, "clone does not share the Arc"), "RxError::clone does not simply clone the Arc", body=b)
+    if n < 4:
+        r.error("T-rxerror: only %d RxError methods found (floor 4)" % n)
+    return r
